@@ -141,6 +141,22 @@ def single_call_jobs(ctx):
                 for b in row["bad"]:
                     variants.append(("bad%d" % len(variants), b))
                 variants += [("nonsquare", "nonsquare"), ("short_ci", "short_ci"), ("asym", "asym")]
+                # option combinations: a branch may only be reached when two options are set together
+                # (one variant = one option in the registry), so every pair of variants with disjoint
+                # plain keyword sets is also exercised
+                if vkey == "":
+                    plain = {v: {k: x for k, x in kws.items() if not k.startswith("_") and k != "args"}
+                             for v, kws in row["variants"].items() if v}
+                    plain = {v: kws for v, kws in plain.items()
+                             if kws and all(isinstance(x, (bool, int, float, str)) and x not in
+                                            ("CI", "VEC", "DIST", "ETA") for x in kws.values())}
+                    names = sorted(plain)
+                    for i1 in range(len(names)):
+                        for i2 in range(i1 + 1, len(names)):
+                            if not set(plain[names[i1]]) & set(plain[names[i2]]):
+                                merged = dict(plain[names[i1]])
+                                merged.update(plain[names[i2]])
+                                variants.append(("combo_%s+%s" % (names[i1], names[i2]), dict(kw=merged)))
                 reps = 1 if ctx.quick else 3
                 for rep in range(reps):
                     for tag, bad in variants:
@@ -160,6 +176,13 @@ def _exec_single(job):
     args = R.build_special(row, rng, n, diag=not job.get("zero_diag"), dtype=dtype,
                            arbitrary_labels=True, vkey=job["vkey"])
     kw = R.resolve_kwargs(row, job["vkey"], args, rng, n, dtype=dtype, arbitrary_labels=True)
+    # distance-matrix arguments: every other call gets unreachable pairs (inf entries)
+    for i, a in enumerate(row["args"]):
+        if a["k"] == "derived" and a.get("how") == "distance_bin" and job["seed"] % 2 and \
+                isinstance(args[i], np.ndarray) and args[i].ndim == 2 and args[i].dtype.kind == "f":
+            args[i] = args[i].copy()
+            args[i][0, 1:] = np.inf
+            args[i][1:, 0] = np.inf
     if row["seeded"]:
         kw["seed"] = job["seed"] % 1000
     bad = job["bad"]
@@ -349,8 +372,17 @@ def check_defect_model(ctx):
 
 def run(ctx):
     missing, stale = R.check_complete()
+    # a public function the registry does not know is reported as uncovered; a row whose function
+    # has disappeared is dropped - neither says anything about the property, so neither stops the check
     if missing or stale:
-        raise core.MachineryError("registry out of date: missing rows %s, stale rows %s" % (missing, stale))
+        core.log("NOTE registry differs from the live namespace: new public names %s (uncovered), "
+                 "vanished %s (skipped)" % (missing, stale))
+        ctx.extra["registry_new_uncovered"] = missing
+        ctx.extra["registry_vanished_skipped"] = stale
+        for name in stale:
+            row = R.BY_NAME.pop(name, None)
+            if row in R.ROWS:
+                R.ROWS.remove(row)
     ctx.mc("MC_CallerArrays.tla", "MC_CallerArrays.cfg", workers=4)
     check_defect_model(ctx)
     programs = model_programs(ctx)
